@@ -12,7 +12,7 @@
    Some bytes = what the reader's buffer held (read, or peek followed by reclaim), None = reclaimed unseen. *)
 From Coq Require Import ZArith List Bool.
 Require Import Verif.gen.Consts_rb Verif.gen.Consts_rbconc Verif.RbModel Verif.RbSpec Verif.RbConcModel
-  Verif.RbConcProofs Verif.RbConcInv Verif.RbConcSeq Verif.RbConcExamples.
+  Verif.RbConcProofs Verif.RbConcProofsInv Verif.RbConcProofsTok Verif.RbConcProofsSeq Verif.RbConcProofsEx.
 Import ListNotations.
 Local Open Scope Z_scope.
 
@@ -90,6 +90,25 @@ Theorem C01_drain : forall h pw pr sched, wf_ring h ->
   length (g_got s) = length (g_pub s) /\ Forall2 gmatch (g_got s) (g_pub s).
 Proof. exact all_drained. Qed.
 Print Assumptions C01_drain.
+
+(* no lost wake-up (I5): for reader programs without qb_rb_chunk_peek (a peek takes a token and leaves the chunk),
+   whenever both threads are between calls the semaphore holds at least one token per published chunk that has not
+   been consumed - in every schedule.  (In general: tokens + the token held inside a read call + the post the
+   writer is about to make >= unread chunks: TokInv, preserved by every micro-step.) *)
+Theorem C01_no_lost_wakeup : forall h pw pr sched, wf_ring h -> Forall (fun c => is_peek c = false) pr ->
+  let s := exec sched (init h pw pr) in
+  quiescent s = true ->
+  match hsem (g_sh s) with
+  | Some c => c >= Z.of_nat (length (g_pub s)) - Z.of_nat (length (g_got s))
+  | None => True
+  end.
+Proof. exact all_tokens. Qed.
+Print Assumptions C01_no_lost_wakeup.
+
+Theorem C01_token_step : forall t s s' o, Inv s -> TokInv s -> no_peek (g_r s) -> step t s = Some (s', o) ->
+  TokInv s' /\ no_peek (g_r s').
+Proof. exact tok_step. Qed.
+Print Assumptions C01_token_step.
 
 (* a write reports success only by publishing its chunk: the return of the length happens in the publishing step
    itself, or in the sem_post step that is entered only from the publishing step of the same call *)
